@@ -70,12 +70,13 @@ def prec_table(L) -> dict:
 def printed_values(out: str, tag: str) -> list:
     """All values `<<"tag", ...>>` printed by TLC (PrintT may wrap a value over several lines)."""
     res = []
-    start = f'<<"{tag}"'
+    start = re.compile(r'<<\s*"' + re.escape(tag) + '"')
     pos = 0
     while True:
-        i = out.find(start, pos)
-        if i < 0:
+        m = start.search(out, pos)
+        if not m:
             return res
+        i = m.start()
         depth, j, instr = 0, i, False
         while j < len(out):
             c = out[j]
@@ -294,7 +295,13 @@ def tokens_for_tlc(lang: str, toks, ptree: dict, st: str):
             out[i]["v"] = "~" + tx
             continue
         if not aligned:
-            out[i]["v"] = str(int(q)) if ty == "int" else "~" + tx
+            # counts differ (TLC will reject the case): name tokens by value so that TLC's first difference
+            # points at the structural cause rather than at the first literal
+            if ty == "int":
+                out[i]["v"] = str(int(q))
+            else:
+                m = [lf for lf in leaves if lf["k"] in ("FloatPos", "FloatNeg") and ulps_off(q, lf["_v"], st) <= 1]
+                out[i]["v"] = m[0]["s"] if m else "~" + tx
             continue
         leaf = leaves[n]
         if leaf["k"] in ("IntPos", "IntNeg"):
@@ -436,8 +443,17 @@ def judge(chk, cs: CaseSet, name: str, chunk_tokens=400_000, parallel=3):
     """Run FormatConform over the cases (chunked), report TLC's verdicts; returns number of rejected cases."""
     if not cs.cases:
         return 0
-    chunks, cur, n = [], [], 0
+    # identical (language, tokens, tree) under a meaning that does not depend on the scalar type are judged once
+    uniq: dict[str, dict] = {}
+    same: dict[str, list] = {}
     for c in cs.cases:
+        dep = c["mode"] == "stmts" or '"MathFunction"' in json.dumps(c["tree"])
+        key = json.dumps([c["lang"], c["mode"], c["st"] if dep else "", c["toks"], c["tree"]], sort_keys=True)
+        if key not in uniq:
+            uniq[key] = c
+        same.setdefault(uniq[key]["id"], []).append(c["id"])
+    chunks, cur, n = [], [], 0
+    for c in uniq.values():
         cur.append(c)
         n += len(c["toks"]) + 50
         if n >= chunk_tokens:
@@ -464,10 +480,11 @@ def judge(chk, cs: CaseSet, name: str, chunk_tokens=400_000, parallel=3):
     for r in results:
         chk.add(states=r.distinct, transitions=r.generated)
         for v in printed_values(r.out, "VIOL"):
-            rejected += 1
-            _tag, cid, diff = v
-            cs.rejected.add(cid)
-            groups.setdefault(reason_key(cs.info[cid]["lang"], diff), []).append((cid, diff))
+            _tag, rid, diff = v
+            for cid in same[rid]:
+                rejected += 1
+                cs.rejected.add(cid)
+                groups.setdefault(reason_key(cs.info[cid]["lang"], diff), []).append((cid, diff))
     by_id = {c["id"]: c for c in cs.cases}
     for key, hits in sorted(groups.items()):
         cid, diff = min(hits, key=lambda h: cs.info[h[0]]["ntok"])
@@ -479,7 +496,7 @@ def judge(chk, cs: CaseSet, name: str, chunk_tokens=400_000, parallel=3):
                        "other_examples": [cs.info[h[0]]["what"] for h in hits[1:6]]})
     chk.add(traces_validated_against_impl=len(cs.cases))
     total_wall = sum(r.wall_s for r in results)
-    chk.note(f"TLC FormatConform[{name}]: {len(cs.cases)} cases in {len(chunks)} run(s), {rejected} rejected, "
+    chk.note(f"TLC FormatConform[{name}]: {len(cs.cases)} cases ({len(uniq)} distinct judged) in {len(chunks)} run(s), {rejected} rejected, "
              f"{len(groups)} distinct root causes, TLC wall {total_wall:.1f}s")
     return rejected
 
@@ -713,6 +730,26 @@ def _top_parts(root, L):
     return [root]
 
 
+def _nested_simple(p, L):
+    """Simple statements (declarations, assignments) strictly inside a composite statement."""
+    out = []
+
+    def walk(n, top):
+        if isinstance(n, L.StatementList):
+            for c in n.statements:
+                walk(c, False)
+        elif isinstance(n, L.Section):
+            for c in list(n.declarations) + list(n.statements):
+                walk(c, False)
+        elif isinstance(n, L.ForRange):
+            walk(n.body, False)
+        elif not top and not isinstance(n, L.Comment):
+            out.append(n)
+
+    walk(p, True)
+    return out
+
+
 def gen_main(jobfile: str, outfile: str):
     """Child process: generate kernel ASTs, format every top-level statement, write cases."""
     ensure_repo_on_path()
@@ -767,7 +804,13 @@ def gen_main(jobfile: str, outfile: str):
                         continue
                     stats["parts"] += 1
                     stats["kinds"][type(p).__name__] = stats["kinds"].get(type(p).__name__, 0) + 1
-                    cs.add(lang, st, "stmts", p, f"{Path(job['name']).name}:{kname}:stmt{i}:{type(p).__name__}", fm)
+                    tag = f"{Path(job['name']).name}:{kname}:stmt{i}"
+                    cs.add(lang, st, "stmts", p, f"{tag}:{type(p).__name__}", fm)
+                    # every simple statement nested in a loop / section again on its own, so that one defect
+                    # does not hide another one later in the same loop body (TLC reports the first difference)
+                    for j, q in enumerate(_nested_simple(p, L)):
+                        stats["nested"] = stats.get("nested", 0) + 1
+                        cs.add(lang, st, "stmts", q, f"{tag}.{j}:{type(q).__name__}", fm)
     Path(outfile).write_text(json.dumps({"cases": cs.cases, "info": cs.info, "lit_fail": cs.lit_fail, "raised": cs.raised,
                                          "stats": stats}))
 
@@ -812,7 +855,7 @@ def run_corpus(chk, quick: bool):
                                        cwd=str(Path(__file__).resolve().parents[1]), stdout=subprocess.PIPE,
                                        stderr=subprocess.STDOUT, text=True), of))
     cs = CaseSet()
-    stats = {"kernels": 0, "parts": 0, "skipped": [], "whole_mismatch": 0, "kinds": {}}
+    stats = {"kernels": 0, "parts": 0, "nested": 0, "skipped": [], "whole_mismatch": 0, "kinds": {}}
     for w, (p, of) in enumerate(procs):
         out, _ = p.communicate(timeout=3000)
         if p.returncode != 0 or not of.exists():
@@ -828,13 +871,13 @@ def run_corpus(chk, quick: bool):
             cs.info[ren[k]] = v
         cs.lit_fail += [(a, b, c, ren[e]) for a, b, c, e in d["lit_fail"]]
         cs.raised += [tuple(x) for x in d["raised"]]
-        for k in ("kernels", "parts", "whole_mismatch"):
-            stats[k] += d["stats"][k]
+        for k in ("kernels", "parts", "whole_mismatch", "nested"):
+            stats[k] += d["stats"].get(k, 0)
         stats["skipped"] += d["stats"]["skipped"]
         for k, v in d["stats"]["kinds"].items():
             stats["kinds"][k] = stats["kinds"].get(k, 0) + v
     ntok = sum(len(c["toks"]) for c in cs.cases)
-    chk.note(f"corpus: {len(jobs)} (form, scalar type) jobs -> {stats['kernels']} kernel ASTs, {stats['parts']} top-level statements "
+    chk.note(f"corpus: {len(jobs)} (form, scalar type) jobs -> {stats['kernels']} kernel ASTs, {stats['parts']} top-level statements (+{stats['nested']} nested simple statements again on their own) "
              f"formatted by the real C and numba formatters, {ntok} tokens; statement kinds {stats['kinds']}; "
              f"skipped {len(stats['skipped'])}; whole-text != concatenation of parts: {stats['whole_mismatch']}")
     for s in stats["skipped"][:10]:
@@ -933,3 +976,152 @@ if __name__ == "__main__":
         gen_main(sys.argv[2], sys.argv[3])
     else:
         sys.exit("usage: python -m harness.s6 --gen jobs.json out.json")
+
+
+# ---------------------------------------------------------------------------
+# C17, operator-overload half (LExprAlgebra.tla)
+
+def alg_project(e: dict) -> dict:
+    """astexport dict -> [k, s, a, n, d] for LExprAlgebra (literals as exact rationals)."""
+    k = e["kind"]
+
+    def node(kk, s="", a=(), n=0, d=1):
+        return {"k": kk, "s": s, "a": list(a), "n": int(n), "d": int(d)}
+
+    if k in ("LiteralFloat", "PyFloat"):
+        if k == "LiteralFloat" and e["complex"]:
+            raise MachineryError("complex literal in an algebra case")
+        f = Fraction(e["value"])
+        return node("Lit", n=f.numerator, d=f.denominator)
+    if k in ("LiteralInt", "PyInt"):
+        return node("Lit", n=e["value"], d=1)
+    if k == "Symbol":
+        return node("Var", e["name"])
+    if k == "ArrayAccess":
+        def nm(i):
+            return i.get("name") or str(i.get("value"))
+        return node("Var", e["array"] + "[" + ",".join(nm(i) for i in e["indices"]) + "]")
+    if k in ("Neg", "Add", "Sub", "Mul", "Div", "Sum", "Product"):
+        return node(k, a=[alg_project(x) for x in e["args"]])
+    raise MachineryError(f"LExprAlgebra has no meaning for node kind {k}")
+
+
+def _operand(kind: str, L, side: str):
+    """Real operand for an enumerated operand kind; side 'a' uses names x,y,A[i]; side 'b' uses u,v,B[j]."""
+    n1, n2, arr, ix = ("x", "y", "A", "i") if side == "a" else ("u", "v", "B", "j")
+    R, I = L.DataType.REAL, L.DataType.INT
+    vals = {"0": 0, "1": 1, "m1": -1, "3": 3, "m3": -3, "2.5": 2.5, "m2.5": -2.5}
+    if kind[:2] in ("LF", "LI", "PI", "PF"):
+        v = vals[kind[2:]]
+        return {"LF": lambda: L.LiteralFloat(float(v)), "LI": lambda: L.LiteralInt(int(v)),
+                "PI": lambda: int(v), "PF": lambda: float(v)}[kind[:2]]()
+    s1, s2 = L.Symbol(n1, R), L.Symbol(n2, R)
+    return {"Sym": lambda: s1, "NegSym": lambda: L.Neg(s1), "NegNegSym": lambda: L.Neg(L.Neg(s1)),
+            "Sum": lambda: L.Sum([s1, s2]), "Product": lambda: L.Product([s1, s2]),
+            "ArrayAccess": lambda: L.ArrayAccess(L.Symbol(arr, R), (L.Symbol(ix, I),))}[kind]()
+
+
+def _apply(op: str, a, b):
+    import operator  # noqa: PLC0415
+
+    if op == "neg":
+        return -a
+    if op in ("add", "sub", "mul", "div"):
+        return {"add": operator.add, "sub": operator.sub, "mul": operator.mul, "div": operator.truediv}[op](a, b)
+    return getattr(b, {"radd": "__radd__", "rsub": "__rsub__", "rmul": "__rmul__", "rdiv": "__rtruediv__"}[op])(a)
+
+
+def run_overloads(chk):
+    """C17, overload half: TLC enumerates the cases, the real operators are applied, TLC judges the real results."""
+    L = lnodes()
+    sdir = scratch("s6")
+    out = sdir / "alg-cases.json"
+    r, _ = run_tlc("alg-enum", "LExprAlgebra", "SPECIFICATION ASpec\nINVARIANT Judge\n", {"S6_ALG_OUT": str(out)})
+    enum = json.loads(out.read_text())
+    cases, info = [], {}
+
+    def add(c, key, what):
+        c["id"] = f"a{len(cases)}"
+        cases.append(c)
+        info[c["id"]] = (key, what)
+
+    n_raised = 0
+    for oc in sorted(enum["ops"], key=lambda c: (c["op"], c["a"], c["b"])):
+        a = _operand(oc["a"], L, "a")
+        b = a if oc["op"] == "neg" else _operand(oc["b"], L, "b")
+        ea, eb = alg_project(astexport.export_expr(a)), alg_project(astexport.export_expr(b))
+        try:
+            res = _apply(oc["op"], a, b)
+            raised, er, rtxt = False, alg_project(astexport.export_expr(res)), repr(astexport.export_expr(res))[:300]
+        except MachineryError:
+            raise
+        except Exception as ex:  # noqa: BLE001 - whether raising is right is for the spec to say
+            raised, er, rtxt = True, ea, f"raised {type(ex).__name__}: {ex}"
+            n_raised += 1
+        add({"kind": "op", "op": oc["op"], "a": ea, "b": eb, "raised": raised, "res": er},
+            f"overload:{oc['op']}:{oc['a']}:{oc['b']}", f"{oc['a']} {oc['op']} {oc['b']} -> {rtxt}")
+    for fs in sorted(enum["products"], key=str):
+        facs = [_operand(k, L, "a" if i % 2 == 0 else "b") for i, k in enumerate(fs)]
+        res = L.float_product(facs)
+        add({"kind": "product", "fs": [alg_project(astexport.export_expr(f)) for f in facs],
+             "res": alg_project(astexport.export_expr(res))}, f"float_product:{','.join(fs)}",
+            f"float_product({fs}) -> {astexport.export_expr(res)}")
+    for mc in sorted(enum["mi"], key=str):
+        sizes, lit = list(mc["sizes"]), mc["lit"]
+        syms, idx = [], []
+        for k, n in enumerate(sizes, start=1):
+            if k == lit:
+                syms.append(n - 1)
+                idx.append({"k": "Lit", "s": "", "a": [], "n": n - 1, "d": 1})
+            else:
+                syms.append(L.Symbol(f"i{k}", L.DataType.INT))
+                idx.append({"k": "Var", "s": f"i{k}", "a": [], "n": 0, "d": 1})
+        mi = L.MultiIndex(syms, sizes)
+        add({"kind": "mi", "sizes": sizes, "idx": idx, "res": alg_project(astexport.export_expr(mi.global_index))},
+            f"global_index:{'x'.join(map(str, sizes))}:lit{lit}", f"MultiIndex(sizes={sizes}, literal axis {lit}).global_index")
+    f = sdir / "alg-results.json"
+    f.write_text(json.dumps(cases))
+    r2, _ = run_tlc("alg-judge", "LExprAlgebra", "SPECIFICATION ASpec\nINVARIANT Judge\n", {"S6_ALG_CASES": str(f)})
+    if r2.distinct != len(cases):
+        raise MachineryError(f"TLC judged {r2.distinct} of {len(cases)} algebra cases")
+    viol = printed_values(r2.out, "VIOL")
+    by_id = {c["id"]: c for c in cases}
+    for _t, cid, kind in viol:
+        key, what = info[cid]
+        chk.violation(key, f"operator overloads do not preserve the value: {what}", {"engine": "S6", "kind": kind, "case": by_id[cid]})
+    nops = len(enum["ops"])
+    chk.add(states=r2.distinct, transitions=r2.generated, traces_validated_against_impl=len(cases), evaluations=len(cases),
+            overload_cases=nops, overload_cases_raised=n_raised, float_product_cases=len(enum["products"]),
+            multiindex_cases=len(enum["mi"]),
+            distinct_nontrivial=len({json.dumps(c.get("res")) for c in cases if c["kind"] == "op" and not c["raised"]}))
+    chk.add(rule="LExprAlgebra.tla enumerates operand kinds (LiteralFloat/LiteralInt/Python int/float of 0, 1, -1, 3|2.5, -3|-2.5, Symbol, "
+                 "Neg(Symbol), Neg(Neg(Symbol)), Sum, Product, ArrayAccess) squared x {+,-,*,/, unary -, reflected forms}, float_product "
+                 "factor lists, MultiIndex shapes (<=4 axes, extents 1..4, optional literal-int axis); each is executed on the real lnodes "
+                 "operators and the exported real result is evaluated by TLC in the rationals for every environment over {-2..2}^variables "
+                 "(all index values for global_index). distinct_nontrivial = distinct result trees of the operator cases.")
+    chk.add(samples=[info[c["id"]][1] for c in random.Random(chk.seed).sample(cases, 6)])
+    chk.note(f"TLC LExprAlgebra: {nops} operator cases ({n_raised} raised), {len(enum['products'])} float_product cases, "
+             f"{len(enum['mi'])} MultiIndex cases judged for all environments: {len(viol)} rejected ({r2.wall_s:.1f}s)")
+    # negative control: a corrupted recorded result must be rejected
+    ctl = []
+    rng = random.Random(chk.seed)
+    pool = [c for c in cases if c["kind"] == "op" and not c["raised"] and c["res"]["k"] in ("Add", "Sub", "Mul", "Div", "Neg")]
+    for c in rng.sample(pool, min(25, len(pool))):
+        c2 = json.loads(json.dumps(c))
+        c2["id"] = "k" + c["id"]
+        c2["res"]["k"] = {"Add": "Sub", "Sub": "Add", "Mul": "Div", "Div": "Mul", "Neg": "Sum"}[c2["res"]["k"]]
+        ctl.append(c2)
+    fc = sdir / "alg-controls.json"
+    fc.write_text(json.dumps(ctl))
+    r3, _ = run_tlc("alg-controls", "LExprAlgebra", "SPECIFICATION ASpec\nINVARIANT Judge\n", {"S6_ALG_CASES": str(fc)})
+    rej = {v[1] for v in printed_values(r3.out, "VIOL")}
+    # swapping + and - (or * and /) changes the value unless an operand is neutral in every environment; count, require most
+    chk.add(controls_rejected=len(rej), controls_total=len(ctl))
+    chk.note(f"negative control: {len(ctl)} recorded results with one operator swapped -> TLC rejected {len(rej)}")
+    if len(rej) < max(1, (len(ctl) * 3) // 4):
+        raise MachineryError("negative control failed: TLC accepted most corrupted operator results")
+    chk.assumptions += [
+        "Eval interprets LNodes arithmetic in the field of rationals (ring laws only); floating-point rounding differences between "
+        "a folded and an unfolded expression are outside this clause",
+        "the reference is compared only in environments where it is defined (no division by zero)",
+    ]
